@@ -540,7 +540,11 @@ func runSched(prop, tier string) int {
 		if p.IsTriple() {
 			b = triBound
 		}
-		tasks = append(tasks, mk(p, b, 2, ""))
+		free := 2
+		if p.Block {
+			free = 0 // a free-running waiter that is never woken would block for real
+		}
+		tasks = append(tasks, mk(p, b, free, ""))
 	}
 	_ = deadline
 	eng.Map(pool, tasks, func(i int, raw json.RawMessage, err error) { handle("explore", tasks[i], raw, err, "") })
